@@ -298,7 +298,7 @@ def replay(body):
 def run(ctx):
     rng = ctx.rng
     ctx.check_theorems()
-    ctx.check_generated(['vmatch', 'vidx', 'vfit', 'vsrc'])
+    ctx.check_generated(['vmatch', 'vidx', 'vfit', 'vsrc', 'vdefaults'])
     # (K) model vs implementation
     exprs, meta = [], []
     for k in range(ctx.n(60, 600)):
